@@ -36,6 +36,7 @@ type RunRecord struct {
 	F      map[string]int    `json:"f,omitempty"`
 	P      map[string]int    `json:"p,omitempty"`
 	C      []string          `json:"c,omitempty"`
+	K      map[string]int    `json:"k,omitempty"`
 	Sample any               `json:"sample,omitempty"`
 	Viol   *Violation        `json:"viol,omitempty"`
 	Replay string            `json:"replay,omitempty"`
@@ -100,6 +101,7 @@ func RunSeed(verifSeed uint64, prop, campaign string, i int) uint64 {
 // Execute performs one run with the given tape. Harness trouble is returned as infra string.
 func Execute(t *testing.T, prop, campaign string, f RunFunc, tape *Tape, keepLog bool) (r *Run, infra string) {
 	r = NewRun(t, prop, campaign, tape)
+	r.KnownSet = knownSet()
 	r.KeepLog = keepLog
 	t.Run("r", func(st *testing.T) {
 		r.T = st
@@ -119,6 +121,21 @@ func Execute(t *testing.T, prop, campaign string, f RunFunc, tape *Tape, keepLog
 		f(r)
 	})
 	return r, infra
+}
+
+var knownOnce map[string]bool
+
+// knownSet parses VERIF_KNOWN: signatures separated by '|'.
+func knownSet() map[string]bool {
+	if knownOnce == nil {
+		knownOnce = map[string]bool{}
+		for _, k := range strings.Split(os.Getenv("VERIF_KNOWN"), "|") {
+			if k != "" {
+				knownOnce[k] = true
+			}
+		}
+	}
+	return knownOnce
 }
 
 func h64(v uint64) string { return strconv.FormatUint(v, 16) }
@@ -193,7 +210,7 @@ func Main(t *testing.T, eng Engine) {
 		rec.TH, rec.LH, rec.Ev, rec.NS = h64(r.Tape.TraceHash()), h64(r.LogHash()), r.Events, r.SimNS
 		rec.Dec = r.Tape.Pos()
 		rec.NT, rec.Amb = r.Nontrivial, r.Ambiguous
-		rec.F, rec.P = r.Faults, r.Probes
+		rec.F, rec.P, rec.K = r.Faults, r.Probes, r.KnownHit
 		for _, k := range SortedKeys(r.Cover) {
 			if _, ok := seenCover[k]; !ok {
 				seenCover[k] = struct{}{}
